@@ -12,6 +12,10 @@ from ..tlc import MachineryError
 OPTS = {'storage': ['dense', 'rowscols', 'coo', 'csr', 'csc', 'diag', 'matfree'], 'bil': .2}
 
 
+STACK_OPTS = {'storage': ['dense', 'rowscols', 'coo', 'csr', 'csc', 'diag'], 'depth': 2, 'ncomp': 5, 'cyc': False,
+              'stack_p': 1., 'modes': ['rev', 'fwd'], 'voi_bare_nd': False}
+
+
 def pred_voi_bare_nd(scn, info):
     """known finding (root cause = C05-nontuple-index-nd-source-flat-positions): a design variable or response
     declared with a NON-tuple int / slice / array index and flat_indices=False on a multi-dimensional variable"""
@@ -38,6 +42,12 @@ def run(ctx, opts=None, pid='C01'):
     ctx.register_predicates({'C01-voi-nontuple-index-nd': pred_voi_bare_nd})
     res = collect(ctx, range(base, base + n), dict(OPTS, voi_bare_nd=True, **(opts or {})), 3 if quick else 6, want_runs=True)
     judge(ctx, res)
+    # family "solver stacks": three-level hierarchies with an assembled jacobian below a Krylov parent (the sub-group's
+    # products are requested for a different variable subset per right-hand side), derivative direction forced
+    ns = 120 if quick else 1200
+    res = collect(ctx, range(base + 500000, base + 500000 + ns), dict(STACK_OPTS, **(opts or {})), 2 if quick else 4,
+                  want_runs=False)
+    judge(ctx, res, clause_prefix='[solver stack] ')
 
 
 def judge(ctx, res, clause_prefix=''):
